@@ -374,6 +374,21 @@ func c13One(c *fw.Ctx, cs c13Case) {
 		c.Violate("C13/neither-connection-nor-error", fmt.Sprintf("%+v: conn == nil and err == nil", cs), cs)
 		return
 	}
+	if !accepted && o.rt.body != nil {
+		// "an error and no connection": the transport of a refused response is
+		// released, in particular the upgraded connection of a refused 101
+		o.rt.body.mu.Lock()
+		closed := o.rt.body.closed
+		o.rt.body.mu.Unlock()
+		if closed == 0 {
+			st := "other-status"
+			if cs.Resp.Status == 101 {
+				st = "status-101"
+			}
+			c.Violate("C13/refused-response-left-open/"+st, fmt.Sprintf("%+v: Dial returned an error (%v) but never closed the response body, which for a 101 response is the connection itself", cs, o.err), cs)
+			return
+		}
+	}
 	outcome := j.Vector() + "|acc=" + fmt.Sprint(accepted)
 	switch j.Overall() {
 	case hsclient.Invalid:
